@@ -1284,8 +1284,19 @@ def main(repo: str, outdir: str, dry: bool = False) -> int:
         return (HEADER + "namespace Optyx.Generated\n\n" + gen_lp_glue(src("solvers/lp_solver.py"))
                 + gen_lp_rows(src("analysis.py")) + "\nend Optyx.Generated\n")
 
+    import source_pins
+
+    def f_pins(prop):
+        def make():
+            try:
+                body = source_pins.generated(repo, prop)
+            except source_pins.PinError as e:
+                raise TranslateError(str(e))
+            return HEADER + "namespace Optyx.Generated\n\n" + body + "\nend Optyx.Generated\n"
+        return make
+
     changed, errors, h = False, {}, hashlib.sha256()
-    for fname, make in (("GradRules", f_rules), ("Tables", f_tables), ("Closures", f_closures), ("SolverGlue", f_glue),
+    for fname, make in tuple((f"Pins{p_}", f_pins(p_)) for p_ in sorted(source_pins.ANCHORS)) + (("GradRules", f_rules), ("Tables", f_tables), ("Closures", f_closures), ("SolverGlue", f_glue),
                         ("JacRow", f_jacrow), ("InitPoint", f_init), ("Dispatch", f_dispatch),
                         ("ApiGlue", f_apiglue), ("LPGlue", f_lpglue), ("SortGlue", f_sort),
                         ("DegreeStep", f_degstep), ("GradStep", f_gradstep), ("LPStep", f_lpstep)):
